@@ -342,10 +342,36 @@ theorem patchChecked_out (s : Sys) (o : Nat) (cp : CommitProof) (rs : List Rec) 
   · right; unfold patchChecked; simp only [hc, hp]; exact ⟨_, _, rfl⟩
   · right; unfold patchChecked; simp only [hc, hp]; exact ⟨_, _, rfl⟩
 
-theorem eventPatch_cases (s : Sys) (o : Nat) (c : Option H) (cp : CommitProof) (rs : List Rec)
-    (h : Inv s) (i : Nat) (hi : cp.indices = [i]) :
-    (∃ hd, (eventPatch s o c cp rs).2 = .patched hd) ∨ Equiv (eventPatch s o c cp rs).1 s := by
+/-- `event_patch` is its guarded body, or a refusal that leaves the state as it was. -/
+theorem eventPatch_guard (s : Sys) (o : Nat) (c : Option H) (cp : CommitProof) (rs : List Rec) :
+    eventPatch s o c cp rs = eventPatchCore s o c cp rs ∨
+    ((eventPatch s o c cp rs).1 = s ∧
+      ((∃ h, (eventPatch s o c cp rs).2 = .conflict h none) ∨
+        ∃ e, (eventPatch s o c cp rs).2 = .err e)) := by
   unfold eventPatch
+  cases c with
+  | none => left; rfl
+  | some c' =>
+    simp only
+    cases hst : staleRewind s o c' rs with
+    | none => left; rfl
+    | some r =>
+      right
+      simp only
+      unfold staleRewind at hst
+      split at hst
+      · split at hst
+        · cases hst; exact ⟨rfl, Or.inr ⟨_, rfl⟩⟩
+        · split at hst
+          · cases hst
+          · cases hst; exact ⟨rfl, Or.inl ⟨_, rfl⟩⟩
+      · cases hst; exact ⟨rfl, Or.inr ⟨_, rfl⟩⟩
+      · cases hst
+
+theorem eventPatchCore_cases (s : Sys) (o : Nat) (c : Option H) (cp : CommitProof) (rs : List Rec)
+    (h : Inv s) (i : Nat) (hi : cp.indices = [i]) :
+    (∃ hd, (eventPatchCore s o c cp rs).2 = .patched hd) ∨ Equiv (eventPatchCore s o c cp rs).1 s := by
+  unfold eventPatchCore
   cases c with
   | none =>
     simp only
@@ -388,5 +414,12 @@ theorem eventPatch_cases (s : Sys) (o : Nat) (c : Option H) (cp : CommitProof) (
       rw [hr]
       right
       rw [rewind_err_unchanged hr]; exact Equiv.refl s
+
+theorem eventPatch_cases (s : Sys) (o : Nat) (c : Option H) (cp : CommitProof) (rs : List Rec)
+    (h : Inv s) (i : Nat) (hi : cp.indices = [i]) :
+    (∃ hd, (eventPatch s o c cp rs).2 = .patched hd) ∨ Equiv (eventPatch s o c cp rs).1 s := by
+  rcases eventPatch_guard s o c cp rs with hc | ⟨hs, _⟩
+  · rw [hc]; exact eventPatchCore_cases s o c cp rs h i hi
+  · right; rw [hs]; exact Equiv.refl s
 
 end Sos.Log
